@@ -17,9 +17,9 @@ from evidence import Run, known_keys
 NL = "\n"
 ALPHABETS = {
     # name: (chars, MaxLen quick, MaxLen thorough, MaxAlt quick, MaxAlt thorough)
-    "punct": (list("{}[]#\\^|~") + ["a", " ", NL, "=", "<"], 3, 4, 3, 3),
-    "ops":   (list("^|&=<>~!+-") + ["a", ";"], 3, 4, 3, 4),
-    "quote": (['"', "'", "\\", "{", "#", "|", "a", NL, "n", "/", "*"], 3, 4, 3, 3),
+    "punct": (list("{}[]#\\^|~") + ["a", " ", NL, "=", "<"], 3, 3, 2, 3),
+    "ops":   (list("^|&=<>~!+-") + ["a", ";"], 3, 4, 2, 3),
+    "quote": (['"', "'", "\\", "{", "#", "|", "a", NL, "n", "/", "*"], 3, 4, 2, 3),
 }
 
 
